@@ -1,5 +1,8 @@
 -------------------------- MODULE MC_Trace_Persist --------------------------
 EXTENDS Trace_Persist
 KA_none == {}
+FsOps == {"fs"}
+StreamOps == {"stream"}
+AllOps == {"fs", "stream"}
 AllModes == {"path", "pathlib", "fresh", "kept"}
 =============================================================================
